@@ -98,6 +98,9 @@ func (fr *Frame) call(in ssa.Instruction, c *ssa.CallCommon, st *State, g string
 		fc.assumes["trusted model: math.Abs(x) == |x| (exact on finite float64)"] = true
 		return []SV{{t: fc.define(fr.prefix+"fabs", "Real", ite(app(">=", args[0].t, "0.0"), args[0].t, app("-", args[0].t))), typ: sig.Results().At(0).Type()}}
 	}
+	if res, ok := fr.mathPowConst(key, c); ok && spec == nil { // ext_float.go: math.Pow of constants
+		return res
+	}
 	if key == badgerPkgPath+".DB).Update" || key == badgerPkgPath+".DB).View" {
 		if res, ok := fr.badgerRunModel(key, c, st, g, pos); ok {
 			return res
@@ -382,6 +385,10 @@ func (fr *Frame) applySpecClosure(spec *FuncSpec, key string, sig *types.Signatu
 				fc.setComp(st, mh, hs, app("store", hh, v.t, nh))
 				fc.setComp(st, mv, vs, app("store", vv, v.t, nv))
 				fc.setComp(st, "ML", "(Array Ptr Int)", app("store", ml, v.t, nl))
+				if m.DelOnly {
+					// m[-]: the new key set is a subset of the old one, surviving entries keep their values, the length does not grow
+					fc.assume(g, deleteOnlyCond(fc.tc.sortOf(mt.Key()), fc.tc.wf("dk", mt.Key(), ""), app("select", hh, v.t), app("select", vv, v.t), nh, nv, app("select", ml, v.t), nl))
+				}
 				continue
 			}
 			sl, ok := types.Unalias(v.typ).Underlying().(*types.Slice)
@@ -700,6 +707,16 @@ func (fr *Frame) appendBuiltin(c *ssa.CallCommon, args []SV, st *State, g string
 			if tc.sortOf(more.typ) == "Slice" {
 				fc.emit(fmt.Sprintf("(assert (forall ((p Ptr)) (! (= (select %[1]s p) (ite (and ((_ is Elem) p) (= (epar p) (sarr %[2]s)) (<= (soff %[2]s) (eix p)) (< (eix p) (+ (soff %[2]s) %[3]s))) (ite (< (- (eix p) (soff %[2]s)) %[4]s) (select %[5]s (Elem %[6]s (+ %[7]s (- (eix p) (soff %[2]s))))) (select %[5]s (Elem %[8]s (+ %[9]s (- (- (eix p) (soff %[2]s)) %[4]s))))) (select %[5]s p))) :pattern ((select %[1]s p)))))",
 					h, res, newLen, slen(s.t), prev, sarr(s.t), soff(s.t), sarr(more.t), soff(more.t)))
+			}
+			if tc.sortOf(more.typ) == "Slice" {
+				// consequences of the axiom above in the index form spec reads use (element j of a slice is Elem(arr, idx(off, j))):
+				// old elements are kept, appended ones follow; plus the ground instance for the common one-element append
+				fc.emit(fmt.Sprintf("(assert (forall ((j Int)) (! (=> (and (<= 0 j) (< j %[2]s)) (= (select %[1]s (Elem (sarr %[3]s) %[4]s)) (select %[5]s (Elem %[6]s %[7]s)))) :pattern ((select %[1]s (Elem (sarr %[3]s) %[4]s))))))",
+					h, slen(s.t), res, idx("(soff "+res+")", "j"), prev, sarr(s.t), idx(soff(s.t), "j")))
+				fc.emit(fmt.Sprintf("(assert (forall ((j Int)) (! (=> (and (<= %[2]s j) (< j %[8]s)) (= (select %[1]s (Elem (sarr %[3]s) %[4]s)) (select %[5]s (Elem %[6]s %[7]s)))) :pattern ((select %[1]s (Elem (sarr %[3]s) %[4]s))))))",
+					h, slen(s.t), res, idx("(soff "+res+")", "j"), prev, sarr(more.t), idx(soff(more.t), "(- j "+slen(s.t)+")"), newLen))
+				fc.emit(fmt.Sprintf("(assert (=> (= %s 1) (= (select %s (Elem (sarr %s) %s)) (select %s (Elem %s %s)))))",
+					addLen, h, res, idx("(soff "+res+")", slen(s.t)), prev, sarr(more.t), idx(soff(more.t), "0")))
 			}
 			fc.noteWrite(k)
 			st.heap[k] = h
